@@ -151,7 +151,7 @@ func (c c16Call) run(pool []geojson.Object) string {
 	return spec.fn(pool[c.Recv], arg)
 }
 
-var c16Unary = []string{"JSON", "Rect", "ForEach", "Abandoned", "Spatial.Within*", "Collection", "BaseSeries", "Circle", "Center", "NumPoints", "Spatial.Intersects*", "Valid"}
+var c16Unary = []string{"JSON", "Rect", "ForEach", "Abandoned", "Reentrant", "Spatial.Within*", "Collection", "BaseSeries", "Circle", "Center", "NumPoints", "Spatial.Intersects*", "Valid"}
 var c16Binary = []string{"Contains", "Within", "Intersects", "Distance"}
 var c16Args = []int{4, 7, 11, 0, 5, 10}
 
@@ -160,7 +160,7 @@ var c16Args = []int{4, 7, 11, 0, 5, 10}
 var c16BigArgs = []int{18}
 
 func c16Calls(npool int, thorough bool) []c16Call {
-	un, ar := c16Unary[:8], c16Args[:3]
+	un, ar := c16Unary[:9], c16Args[:3]
 	if thorough {
 		un, ar = c16Unary, c16Args
 	}
@@ -170,7 +170,7 @@ func c16Calls(npool int, thorough bool) []c16Call {
 			if r >= 15 && !(m == "Collection" && r == 16) && !(m == "Rect" && r <= 17) {
 				continue // big objects: only cheap unary calls
 			}
-			if (m == "Abandoned" && (r < 8 || r > 11)) || (m == "Collection" && ((r < 8 || r > 11) && r != 16)) || (m == "Circle" && r != 7 && r != 14) || (m == "BaseSeries" && !(r >= 2 && r <= 5 || r == 13)) {
+			if ((m == "Abandoned" || m == "Reentrant") && (r < 8 || r > 11)) || (m == "Collection" && ((r < 8 || r > 11) && r != 16)) || (m == "Circle" && r != 7 && r != 14) || (m == "BaseSeries" && !(r >= 2 && r <= 5 || r == 13)) {
 				continue // method does nothing on this kind
 			}
 			out = append(out, c16Call{Method: m, Recv: r, Arg: -1})
